@@ -24,6 +24,8 @@ OK_OPS = {'RESUME', 'LOAD_CONST', 'RETURN_VALUE', 'RETURN_CONST', 'BINARY_OP', '
           'CALL_INTRINSIC_1', 'NOP', 'BUILD_TUPLE', 'CACHE', 'UNARY_POSITIVE', 'BINARY_ADD', 'BINARY_SUBTRACT', 'BINARY_MULTIPLY',
           'COMPARE_OP', 'POP_TOP', 'PUSH_NULL', 'COPY', 'SWAP', 'TO_BOOL'}
 ARTEFACT_NAMES = {'inf', 'nan', 'infj', 'nanj'}     # the package's own printing of non-finite numbers
+# imported by the tokenizer / parser of the interpreter for its own purposes (\\N{...} escapes, codec lookup), never named by the input
+INTERPRETER_INTERNAL_IMPORTS = ('unicodedata', 'stringprep', 'codecs', '_codecs', 'warnings', 'linecache', 'tokenize', 'token', 're', 'sre_compile', 'traceback')
 PSEUDO_FILES = ('python_minifier.minify source', 'python_minifier.unparse output', 'FString candidate', 'folded expression',
                 'python_minifier.f_string output', 'stdin')
 ALLOWED_NODES = (ast.Expression, ast.BinOp, ast.UnaryOp, ast.Constant, ast.operator, ast.unaryop, ast.Load)
@@ -89,6 +91,7 @@ def _install():
     pm.minify("import os\nx = f'{1 + 2}' + 'a' + b'b'\nclass A(object):\n    def f(self, a: int = 1) -> int:\n        '''d'''\n        raise ValueError()\n", rename_globals=True)
     try:
         pm.minify("# -*- coding: latin-1 -*-\nx = 1\n".encode('latin-1'))
+        pm.minify("x = '\\N{EM DASH}'\n")        # the parser itself imports unicodedata to decode \\N{...} escapes
     except Exception:
         pass
 
@@ -186,7 +189,7 @@ def run_case(case):
         elif kind == 'import':
             name = ev[1]
             res['matrix']['imports_seen'][name.split('.')[0]] = res['matrix']['imports_seen'].get(name.split('.')[0], 0) + 1
-            if not (name.startswith('python_minifier') or name.startswith('encodings') or name in case.get('import_allow', [])):
+            if not (name.startswith('python_minifier') or name.startswith('encodings') or name in INTERPRETER_INTERNAL_IMPORTS):
                 res['violations'].append({'mech': None, 'detail': 'import of %r during minify()' % name, 'witness': {}})
         elif kind == 'open' and ev[1] in PSEUDO_FILES and ev[2] in ('r', 'rb'):
             # the interpreter looking for the source line of a SyntaxError under the pseudo file name the package passed to compile()
